@@ -13,11 +13,19 @@ OCAML_PACKAGES = ['coq-core.kernel']
 OCAML_FLAGS = '-rectypes -thread'
 
 RULE = ('EXACT stream (model at the exact instance, small-integer / dyadic data, plus a Fraction oracle): focal.apply: every odd kernel '
-        'shape 1x1..5x7 (12 shapes) x 7 built-in + 5 jitted user reducers (nanmax-nanmin, count of non-NaN, '
+        'shape 1x1..7x7 (16 shapes) x 7 built-in + 5 jitted user reducers (nanmax-nanmin, count of non-NaN, '
         'count of NaN, first element, index-weighted sum) on random rasters 1x1..8x8 (small integers / quarter-integers / all-distinct '
         'values, NaN density 0..0.6, float64/float32/int32/int64), random asymmetric 0/1 kernels incl. one-sided ones, entries that are '
         'not 1 (2, 0.5, -1), kernels larger than the raster, one-cell kernels at every offset; thorough tier additionally ALL 512 0/1 '
-        'kernels of shape 3x3 and all of shape 1x3/3x1/1x5/5x1 with the index-weighted reducer; Dask-backed rasters split into chunks. '
+        'kernels of shape 3x3 and all of shape 1x3/3x1/1x5/5x1 with the index-weighted reducer. DASK stream: apply, focal_stats, '
+        'convolution_2d, hotspots and mean (passes 0..3, excludes) on Dask-backed rasters in six chunk layouts (single chunk, one block '
+        'tall x several wide, several tall x one wide, 1-cell chunks, uneven chunks, regular blocks), same oracle and model as NumPy. '
+        'AUDIT stream (corners of the quantifier): rasters 1x1 / 1xN / Nx1 / smaller than the kernel for every function; kernel '
+        'shapes up to 7x7 incl. 7x3 and 1x1; kernels with entries that are not 0/1 and of int8/uint8/bool/float32 dtype; the default '
+        'reducer; every integer width signed and unsigned plus float32 (negative/zero/fractional weights on integer rasters for '
+        'convolution); passes 4..12; excludes lists with 1-4 entries in every order incl. NaN first/middle/last and duplicates; '
+        'stats_funcs reversed, rotated, single, with duplicates; hotspots with |mean|/std 1e2..1e6, constant and all-NaN rasters; '
+        'the `name` argument of apply / mean / convolution_2d. '
         'focal_stats: default and random sub-lists/orders of the 7 statistics. focal.mean: passes 0..3 x excludes [nan] / [nan,v] / '
         '[v] / [v,w] / [v,nan,w]. convolution_2d: dyadic and integer weighted kernels of every odd shape up to 5x7, rasters smaller than '
         'the kernel included. _calc_hotspots_numpy: z-scores at, one ulp (float64 and float32) below and above every ladder constant, '
@@ -34,7 +42,10 @@ TRUSTED = [
     'EXACT stream: cell values are exact rationals with an explicit NaN (option Q); the generated data are small integers / dyadic '
     'fractions so that every float32/float64 sum of the implementation is exact and only the final store rounds (mean, var, std, '
     'passes >= 2 of focal.mean compare with a stated tolerance: 4e-6 relative for float32 results, 1e-9 for float64); the exact '
-    'instance has no infinities (x/0 = NaN); hotspots z-scores are skipped within 2e-4 (relative) of a threshold; +-inf z-scores are fed '
+    'instance has no infinities (x/0 = NaN); hotspots cells are skipped where the exact |z| is closer to a threshold than the forward '
+    'error bound of the float32 evaluation (formula in oracle_hotspots; it grows with |mean|/std, x3 on Dask whose reductions are '
+    'chunked), the float stream covers those rasters bit-for-bit; focal.mean with more than 3 passes is checked by the oracle and the '
+    'float stream only (the exact model keeps unreduced fractions); +-inf z-scores are fed '
     'as +-2^70; x ** 0.5 is the Section variable qsqrt there (theorems hold for every function; the driver passes the double sqrt)',
     'FLOAT stream: binary32 = Coq SpecFloat operations at (prec 24, emax 128), binary64 = PrimFloat (hardware doubles in the extracted '
     'OCaml via ExtrOCamlFloats); NO tolerance anywhere: every cell is compared bit-for-bit (any NaN = any NaN; signed zeros and '
@@ -51,7 +62,9 @@ TRUSTED = [
     'np.nditer order is taken to be row-major (C-ordered kernels)',
     'the user reducers of the exact stream are jitted Python functions whose Gallina twins (Model.u_*) were written by hand',
 ]
-ASSUMPTIONS = ['NumPy backend (a Dask-backed sub-stream checks chunked apply/focal_stats against the same model; CuPy not covered)',
+ASSUMPTIONS = ['NumPy and Dask-with-NumPy backends (CuPy not covered)',
+               'float16 rasters are outside the domain: Numba has no float16 support on the CPU (apply / focal_stats / convolution_2d raise '
+               'NotImplementedError: float16); bool rasters are refused by hotspots (documented ValueError)',
                'rasters have at least one row and one column and are rectangular',
                'kernels are C-ordered 2-D ndarrays; for hotspots 0/1 kernels with kernel.sum() != 0 and rasters of at most 128 cells',
                'focal.mean: `excludes` is a non-empty list of floats (Numba cannot type an empty or mixed int/float tuple)',
@@ -765,7 +778,10 @@ def run_mean(ctx, pend, a, dtype, passes, excludes, chunks=None):
     E = [fr(e) for e in excludes]
     mode = 'f64' if passes <= 1 else 'f64tol'
     check_grid(ctx, out, oracle_mean(D, passes, E), mode, case, what)
-    pend.append(('mean %d %d %s %s' % (passes, len(E), ' '.join(tok(e) for e in E), grid_line(D)), [(out, mode)], case, what))
+    if passes <= 3:
+        # the exact model keeps unreduced fractions (denominators grow as d^9 per pass): more passes go to the oracle here and
+        # to the float instance (run_float_stream), which is bit-exact for any number of passes
+        pend.append(('mean %d %d %s %s' % (passes, len(E), ' '.join(tok(e) for e in E), grid_line(D)), [(out, mode)], case, what))
 
 
 def run_conv(ctx, pend, a, dtype, karr, chunks=None):
@@ -1482,9 +1498,10 @@ def run_float_stream(ctx):
         frun_apply(ctx, fpend, a, dtype, kind, k, ['mean', 'sum'][i % 2] if dtype == 'float32' else rng.sample(BUILTIN, rng.randint(2, 7)))
     for i in range(40 if q else 500):
         a, dtype, kind = gen_fraster(rng)
-        passes = i % 4
+        passes = i % 4 if i % 10 else [4, 6, 9, 12][(i // 10) % 4]
         vals = [float(v) for v in a.ravel().tolist()]
-        ex = [[NAN], [NAN, rng.choice(vals)], [rng.choice(vals)], [rng.choice(vals), rng.choice(vals)]][(i // 4) % 4]
+        ex = [[NAN], [NAN, rng.choice(vals)], [rng.choice(vals)], [rng.choice(vals), rng.choice(vals)],
+              [rng.choice(vals), NAN], [rng.choice(vals), rng.choice(vals), NAN]][(i // 4) % 6]
         frun_mean(ctx, fpend, a, kind, passes, ex)
     for i in range(40 if q else 500):
         shape = ODD_SHAPES[i % len(ODD_SHAPES)]
@@ -1549,16 +1566,17 @@ def replay_case(ctx, case):
         a = a.astype(dtype) if dtype.startswith('float') else np.nan_to_num(a).astype(dtype)
     if fn in ('apply', 'focal_stats', 'convolution_2d', 'hotspots'):
         k = np.array(g('kernel'), dtype=case.get('kdtype', 'float64'))
+    ch = chunks_from_json(case.get('dask_chunks'))
     if fn == 'apply':
-        run_apply(ctx, pend, a, dtype, k, case['func'], chunks=case.get('dask_chunks'))
+        run_apply(ctx, pend, a, dtype, k, case['func'], chunks=ch)
     elif fn == 'focal_stats':
-        run_stats(ctx, pend, a, dtype, k, case['stats'], chunks=case.get('dask_chunks'))
+        run_stats(ctx, pend, a, dtype, k, case['stats'], chunks=ch)
     elif fn == 'mean':
-        run_mean(ctx, pend, a, dtype, case['passes'], g('excludes'))
+        run_mean(ctx, pend, a, dtype, case['passes'], g('excludes'), chunks=ch)
     elif fn == 'convolution_2d':
-        run_conv(ctx, pend, a, dtype, k)
+        run_conv(ctx, pend, a, dtype, k, chunks=ch)
     elif fn == 'hotspots':
-        run_hotspots(ctx, pend, a, dtype, k)
+        run_hotspots(ctx, pend, a, dtype, k, chunks=ch)
     elif fn == '_calc_hotspots_numpy':
         run_hot(ctx, pend, np.array(g('z'), dtype=case.get('dtype', 'float64')))
     elif fn == 'custom_kernel':
